@@ -133,6 +133,10 @@ def body(chk, db, cfgname):
             probs.append("subtraction is applied at every frequency, it belongs to W_n = 0 only")
         if kind == "tau" and atzero:
             probs.append("subtraction in tau is restricted to small tau")
+        # no value may be returned before the subtraction was decided, unless the flag is known to be off on that path
+        for r_ in lh.returns_skipping(g, gctx, S, lambda q_: ("false", fld(SU + "::SubtractDisconnected")) in gat.get(g.cfg.pos1(q_), frozenset())):
+            probs.append("the value returned at line %s leaves out the disconnected part although SubtractDisconnected may be set (early return%s)" % (
+                g.loc(r_).rsplit(":", 1)[-1], " for a vanishing function: its connected part is 0 but <A><B> still has to be subtracted" if ("true", fld(SU + "::Vanishing")) in gat.get(g.cfg.pos1(r_), frozenset()) else ""))
         if probs:
             r1.bad(site, g.loc(S), "; ".join(probs), cfgname)
         else:
